@@ -1,5 +1,6 @@
 (* Correspondence checker for C15: a case is (history, per-operation observations on the real
-   agg.Hub, whether the hub goroutine died).  Observation of a broadcast = the sorted, duplicate-free
+   agg.Hub, the hub's rule table after every operation that is not a broadcast, whether the hub
+   goroutine died).  Observation of a broadcast = the sorted, duplicate-free
    list of subscriber numbers whose channel the tagged message arrived on; [] for other operations.
    It passes when the model of the repaired hub (fx = true) produces the same. *)
 From Relay Require Import Base.Prelude Base.AList Model.Agg.
@@ -15,12 +16,32 @@ Fixpoint dedup (l : list N) : list N :=
 
 Definition proj (out : list client) : list N := sortN (dedup (map fst out)).
 
-Definition case := (list op * list (list N) * bool)%type.
+(* the rule table read after an operation (sorted by stream by the harness): same size as the
+   model's table and every observed entry is in it (the model's keys are duplicate-free) *)
+Definition listing_ok (s : st) (l : list (N * list N)) : bool :=
+  Nat.eqb (length l) (length (rules s)) &&
+  forallb (fun e => option_eqb (list_eqb N.eqb) (rlk (fst e) (rules s)) (Some (snd e))) l.
+
+Definition is_bcast (o : op) : bool := match o with Bcast _ => true | _ => false end.
+
+(* walk the history with the model; ls has one entry per executed operation *)
+Fixpoint listings_ok (s : st) (ops : list op) (ls : list (list (N * list N))) : bool :=
+  match ops, ls with
+  | o :: r, l :: lr =>
+      match step true s o with
+      | Ok s1 _ => (is_bcast o || listing_ok s1 l) && listings_ok s1 r lr
+      | Panic => false
+      end
+  | _, [] => true
+  | [], _ :: _ => false
+  end.
+
+Definition case := (list op * list (list N) * list (list (N * list N)) * bool)%type.
 
 Definition case_ok (c : case) : bool :=
-  let '(ops, obs, died) := c in
+  let '(ops, obs, ls, died) := c in
   let '(outs, p) := run true init ops in
-  Bool.eqb p died && list_eqb (list_eqb N.eqb) (map proj outs) obs.
+  Bool.eqb p died && list_eqb (list_eqb N.eqb) (map proj outs) obs && listings_ok init ops ls.
 
 (* non-trivial: some broadcast reached a stream subscriber through a sub-subscription, and at least
    one sub-subscription was torn down during the history *)
@@ -28,7 +49,7 @@ Definition is_stream_client (c : client) : bool :=
   match snd c with TStream _ => true | TFeed _ => false end.
 
 Definition case_nontrivial (c : case) : bool :=
-  let '(ops, _, _) := c in
+  let '(ops, _, _, _) := c in
   existsb (existsb is_stream_client) (fst (run true init ops)) &&
   match final true ops with Some s => negb (N.eqb (N.of_nat (length (closed s))) 0) | None => false end.
 
